@@ -36,10 +36,10 @@ r2 = sh("cd %s && bash seed/demo.sh %s" % (wt, wt), timeout=1800)
 meta["demo_without_change_exit"] = r2.returncode
 sh("cd %s && git apply /tmp/seed-%s.diff" % (wt, name))
 # 3. baseline with the change
-r3 = sh("cd %s && python3 /tmp/check_baseline.py" % wt, timeout=3600)
+r3 = sh("cd %s && python3 /verif/bin/check_baseline.py" % wt, timeout=3600)
 if r3.returncode != 0:
     # one retry: a couple of the repository's own tests are timing-sensitive under heavy load
-    r3 = sh("cd %s && python3 /tmp/check_baseline.py" % wt, timeout=3600)
+    r3 = sh("cd %s && python3 /verif/bin/check_baseline.py" % wt, timeout=3600)
 meta["baseline_ok"] = r3.returncode == 0
 # 4. our checks
 caught = {}
